@@ -26,6 +26,9 @@ use tokio::net::TcpStream;
 use tokio::sync::watch;
 
 const WAIT: Duration = Duration::from_millis(2500);
+/// once a bounded wait has expired in a case, later waits of that case are cut to this (a broken server must not
+/// make the run take hours; the first expiry is already reported)
+const WAIT_DEGRADED: Duration = Duration::from_millis(40);
 
 #[derive(Default)]
 struct Shared {
@@ -241,6 +244,7 @@ fn ws_call(method: &str, arg: u64, id: u64) -> Vec<u8> {
 }
 
 struct Case {
+	wait: Duration,
 	addr: std::net::SocketAddr,
 	shared: Arc<Shared>,
 	conns: HashMap<u64, Conn>,
@@ -266,6 +270,7 @@ impl Case {
 			_ => true,
 		};
 		let none = "-".to_string();
+		let wait = self.wait;
 		let timeout = "T".to_string();
 		match op {
 			"ho" => {
@@ -277,7 +282,7 @@ impl Case {
 				}
 				let mut buf = Vec::new();
 				let sh2 = sh.clone();
-				let r = wait_head_or(&mut s, &mut buf, || !expect_resp && sh2.calls.load(SeqCst) > calls0 && avail_ok(), WAIT).await;
+				let r = wait_head_or(&mut s, &mut buf, || !expect_resp && sh2.calls.load(SeqCst) > calls0 && avail_ok(), wait).await;
 				match r {
 					Waited::Status(st) => st.to_string(),
 					Waited::Cond => {
@@ -286,9 +291,11 @@ impl Case {
 					}
 					Waited::Eof => "EOF".into(),
 					Waited::Timeout => {
-						// keep the stream: it may be parked although a response was expected
+						// keep the stream: the request is parked.  If the service call was seen and no answer came, the
+						// only thing that failed to show up is the expected counter value: report the step as parked
+						// and let the counter speak for itself
 						self.conns.insert(i, Conn::HttpPartial(s, req[req.len() - 1]));
-						timeout
+						if !expect_resp && sh.calls.load(SeqCst) > calls0 { none } else { timeout }
 					}
 				}
 			}
@@ -299,7 +306,7 @@ impl Case {
 					}
 					let mut buf = Vec::new();
 					let sh2 = sh.clone();
-					match wait_head_or(&mut s, &mut buf, || sh2.started(i) >= 1, WAIT).await {
+					match wait_head_or(&mut s, &mut buf, || sh2.started(i) >= 1, wait).await {
 						Waited::Cond => {
 							self.conns.insert(i, Conn::HttpParked(s));
 							none
@@ -319,7 +326,7 @@ impl Case {
 				Some(Conn::HttpParked(mut s)) => {
 					sh.open_gate(i);
 					let mut buf = Vec::new();
-					match wait_head_or(&mut s, &mut buf, || false, WAIT).await {
+					match wait_head_or(&mut s, &mut buf, || false, wait).await {
 						Waited::Status(st) => st.to_string(),
 						Waited::Eof => "EOF".into(),
 						_ => timeout,
@@ -348,6 +355,7 @@ impl Case {
 			"hu" => {
 				// k requests written back to back on k streams: the server's worker threads race for the slots
 				let avail0 = sh.avail();
+				let calls0 = sh.calls.load(SeqCst);
 				let mut streams = Vec::new();
 				for _ in 0..k {
 					let Some(s) = self.connect().await else { return timeout };
@@ -385,8 +393,9 @@ impl Case {
 					if answered + parked == k {
 						break true;
 					}
-					if t0.elapsed() > WAIT {
-						break false;
+					if t0.elapsed() > wait {
+						// all k service calls were seen: the count of answers is meaningful, the counter is what is off
+						break sh.calls.load(SeqCst) >= calls0 + k;
 					}
 					tokio::time::sleep(Duration::from_millis(1)).await;
 				};
@@ -402,7 +411,7 @@ impl Case {
 					return timeout;
 				}
 				let mut buf = Vec::new();
-				match wait_head_or(&mut s, &mut buf, || false, WAIT).await {
+				match wait_head_or(&mut s, &mut buf, || false, wait).await {
 					Waited::Status(st) => st.to_string(),
 					Waited::Eof => "EOF".into(),
 					_ => timeout,
@@ -414,7 +423,7 @@ impl Case {
 					return timeout;
 				}
 				let mut buf = Vec::new();
-				match wait_head_or(&mut s, &mut buf, || false, WAIT).await {
+				match wait_head_or(&mut s, &mut buf, || false, wait).await {
 					Waited::Status(st) => {
 						if st == 101 {
 							self.conns.insert(i, Conn::Ws(s));
@@ -432,7 +441,7 @@ impl Case {
 					return timeout;
 				}
 				let sh2 = sh.clone();
-				let seen = poll_until(|| sh2.calls.load(SeqCst) > calls0, WAIT).await;
+				let seen = poll_until(|| sh2.calls.load(SeqCst) > calls0, wait).await;
 				reset(s);
 				if seen { none } else { timeout }
 			}
@@ -444,7 +453,7 @@ impl Case {
 						return "EOF".into();
 					}
 					let sh2 = sh.clone();
-					if poll_until(|| sh2.started(i) > before, WAIT).await { none } else { timeout }
+					if poll_until(|| sh2.started(i) > before, wait).await { none } else { timeout }
 				}
 				_ => none,
 			},
@@ -452,7 +461,7 @@ impl Case {
 				Some(Conn::Ws(_)) => {
 					sh.open_gate(i);
 					let sh2 = sh.clone();
-					if poll_until(|| sh2.finished(i) == sh2.started(i), WAIT).await { none } else { timeout }
+					if poll_until(|| sh2.finished(i) == sh2.started(i), wait).await { none } else { timeout }
 				}
 				_ => none,
 			},
@@ -463,7 +472,7 @@ impl Case {
 					if s.write_all(&f).await.is_err() {
 						return "EOF".into();
 					}
-					if drain_to_eof(&mut s, WAIT).await { none } else { timeout }
+					if drain_to_eof(&mut s, wait).await { none } else { timeout }
 				}
 				Some(c) => {
 					self.conns.insert(i, c);
@@ -553,7 +562,7 @@ async fn run_case(line: &str) -> String {
 		Err(e) => return format!("?addr {}", e),
 	};
 	let handle = server.start(module(shared.clone()));
-	let mut case = Case { addr, shared: shared.clone(), conns: HashMap::new(), next_id: 0 };
+	let mut case = Case { wait: WAIT, addr, shared: shared.clone(), conns: HashMap::new(), next_id: 0 };
 	let mut out: Vec<String> = Vec::new();
 	if !warm_up(&mut case, &mode, max).await {
 		out.push("T-warmup".into());
@@ -569,10 +578,15 @@ async fn run_case(line: &str) -> String {
 		let want: Option<usize> = hint.get(1..).and_then(|x| x.parse().ok());
 		let k: u64 = p.next().and_then(|x| x.parse().ok()).unwrap_or(0);
 		let status = case.step(op, i, expect_resp, want, k).await;
+		if status == "T" {
+			case.wait = WAIT_DEGRADED;
+		}
 		// bounded wait for the slot counter (release after a peer reset is asynchronous)
 		let sh = shared.clone();
 		if let (Some(w), true) = (want, sh.avail().is_some()) {
-			poll_until(|| sh.avail() == Some(w), WAIT).await;
+			if !poll_until(|| sh.avail() == Some(w), case.wait).await {
+				case.wait = WAIT_DEGRADED;
+			}
 		}
 		let avail = match shared.avail() {
 			Some(a) => a.to_string(),
